@@ -13,6 +13,7 @@ loop or the two passes: the meaning of the events is defined declaratively below
      front of that offset was generated (bytes generated under no line are skipped)
  J3  the tables of a program do not change when it is loaded again from its saved binary
  J4  no crash
+ J5  an opened file never gets a file id that a file_info segment written before already uses
 -/
 import NV.C18.Model
 
@@ -32,6 +33,7 @@ deriving Repr
 /-- the generator's record of one failing evaluation -/
 structure Expect where
   kind : String := "plain"
+  phase : String := "call"      -- "load": the failing code runs while the object is loaded (variable initialiser)
   file : String
   lo : Int
   hi : Int
@@ -155,7 +157,7 @@ def judgeDec (prog : String) (evs : List CEv) (runs : List (Nat × String)) : Li
     | (none, _) :: es', _ :: gs' => go (off + 1) es' gs'
     | (some e, ini) :: es', g :: gs' =>
       if e == g then go (off + 1) es' gs'
-      else [s!"{if ini then "dec-init" else "dec-mismatch"} prog={prog} off={off} expected={e} got={g}"]
+      else [s!"dec-mismatch prog={prog} off={off}{if ini then " (initialiser)" else ""} expected={e} got={g}"]
   go 1 exp got
 
 /-! ## J1 -/
@@ -173,7 +175,7 @@ def judgeTrace (kind : String) (exp : List ExpEnt) (got : List TraceEnt) : List 
       (if e.obj ≠ g.ob then [s!"trace-entry kind={kind} i={i} field=obj expected={e.obj} got={g.ob}"] else []) ++
       (if e.file ≠ g.file then [s!"trace-entry kind={kind} i={i} field=file expected={e.file} got={g.file}"] else []) ++
       (if g.line < e.lo ∨ e.hi < g.line then
-         [s!"trace-line kind={kind} i={i} expected={e.lo}-{e.hi} got={g.line}{if (e.lo - g.line) % 65536 = 0 then " wrap16" else ""}"] else []) ++
+         [s!"trace-line kind={kind} i={i} expected={e.lo}-{e.hi} got={g.line}{if (e.lo - g.line) % (lineMod : Int) = 0 then " wrap16" else ""}"] else []) ++
       go (i + 1) es' gs'
     | _, _ => []
   go 0 exp real
@@ -181,7 +183,7 @@ def judgeTrace (kind : String) (exp : List ExpEnt) (got : List TraceEnt) : List 
 def judgeEh (e : Expect) (r : EhRec) : List String :=
   (if e.file ≠ r.file then [s!"eh-file kind={e.kind} expected={e.file} got={r.file}"] else []) ++
   (if r.line < e.lo ∨ e.hi < r.line then
-     [s!"eh-line kind={e.kind} expected={e.lo}-{e.hi} got={r.line}{if (e.lo - r.line) % 65536 = 0 then " wrap16" else ""}"] else []) ++
+     [s!"eh-line kind={e.kind} expected={e.lo}-{e.hi} got={r.line}{if (e.lo - r.line) % (lineMod : Int) = 0 then " wrap16" else ""}"] else []) ++
   (if e.program ≠ r.program then [s!"eh-prog kind={e.kind} expected={e.program} got={r.program}"] else []) ++
   (if e.object ≠ r.object then [s!"eh-object kind={e.kind} expected={e.object} got={r.object}"] else []) ++
   judgeTrace e.kind e.trace r.trace
@@ -193,11 +195,21 @@ def judgeEhs : List Expect → List EhRec → List String
   | e :: es, r :: rs => judgeEh e r ++ judgeEhs es rs
   | es, rs => [s!"eh-count missing={es.length} extra={rs.length}"]
 
-/-! ## J2, J3, J4 over the observation list -/
+/-- J5: a file that is opened gets a file id that no `file_info` segment written so far uses (this is the
+    freshness condition `Fresh` of the round-trip theorem, checked on every real compilation) -/
+def reusedIds (evs : List CEv) : List Nat :=
+  (evs.foldl (fun (acc : List Nat × List Nat) e =>
+    match e with
+    | .fi f _ => (f.toNat :: acc.1, acc.2)
+    | .addFile f _ => if acc.1.contains f then (acc.1, f :: acc.2) else acc
+    | _ => acc) ([], [])).2.reverse
+
+/-! ## J2, J3, J4, J5 over the observation list -/
 
 def judgeObs : List Obs → List (String × List CEv) → List (String × String) → List String
   | [], _, _ => []
-  | .ev p evs :: rest, known, tabs => judgeObs rest ((p, evs) :: known) tabs
+  | .ev p evs :: rest, known, tabs =>
+    ((reusedIds evs).take 1).map (fun f => s!"file-id-reused prog={p} id={f}") ++ judgeObs rest ((p, evs) :: known) tabs
   | .dec p runs :: rest, known, tabs =>
     (match known.find? (fun e => e.1 == p) with
      | some e => judgeDec p e.2 runs
@@ -212,7 +224,7 @@ def judgeObs : List Obs → List (String × List CEv) → List (String × String
 /-- the specification oracle: list of violations (empty = the property held on this run) -/
 def judgeEv (exps : List Expect) (obs : List Obs) : List String :=
   let loadFailed := obs.any fun | .loadFail => true | _ => false
-  if loadFailed && !(exps.any fun e => e.kind == "init") then
+  if loadFailed && !(exps.any fun e => e.phase == "load") then
     -- the generated program did not compile: a defect of the generator, not an observation about C18
     ["setup load-failed"]
   else
